@@ -419,6 +419,10 @@ impl Module for M {
                             let g = format!("0 0 {} {} {}", w, h, radii_toks(&r));
                             emit(format!("rrect.areas {} {} {}", g, width, a));
                             emit(format!("rrect.styled {} 7 9 {} {} -8 -8 80 80", g, width, a));
+                            // fill colour only, non-zero stroke width: `draw()` paints the scanlines of the fill
+                            // area, `pixels()` the fill parts of the stroke area's scanlines (the C01 face of the
+                            // same finding; for Inside strokes also "an inside stroke never paints outside the shape")
+                            emit(format!("rrect.styled {} 7 - {} {} -8 -8 80 80", g, width, a));
                         }
                     }
                 }
@@ -765,12 +769,26 @@ impl Module for M {
                 ctx.expect(e1.is_ok() && e2.is_ok() && e3.is_ok(), "rrect-draw-error", || "draw returned Err".into());
                 // C01: one image whichever path
                 ctx.expect(r1.rec.map == r2.rec.map, "rrect-paths-differ:r1-r2", || format!("R1 {} R2 {}", r1.rec.fmt_map(), r2.rec.fmt_map()));
-                ctx.expect(r1.rec.map == r3.rec.map, "rrect-paths-differ:draw-pixels", || {
-                    format!("draw {} pixels {}", r1.rec.fmt_map(), r3.rec.fmt_map())
-                });
                 // C06: the map follows fill_area / stroke_area
                 let sa = rr.offset(out as i32);
                 let fa = rr.offset(-(ins as i32));
+                // KNOWN FINDING (suffix `:confined-radii`, see rrect.areas): when `confine` rescales the radii of the
+                // fill or stroke area the fill area can leave the stroke area; with a fill colour only, `draw()` paints
+                // such a point (scanlines of the fill area) and `pixels()` does not (fill parts of the stroke area's
+                // scanlines). The suffixed class is emitted exactly when the two maps differ ONLY in points of
+                // fill_area \ stroke_area of such a shape; any other difference keeps the unsuffixed class.
+                {
+                    let conf = radii_confined(&sa) || radii_confined(&fa);
+                    let keys: std::collections::BTreeSet<(i32, i32)> = r1.rec.map.keys().chain(r3.rec.map.keys()).copied().collect();
+                    let diff: Vec<Point> = keys
+                        .iter()
+                        .filter(|k| r1.rec.map.get(*k) != r3.rec.map.get(*k))
+                        .map(|(y, x)| Point::new(*x, *y))
+                        .collect();
+                    let explained = conf && !diff.is_empty() && diff.iter().all(|p| fa.contains(*p) && !sa.contains(*p));
+                    let cls = if explained { "rrect-paths-differ:draw-pixels:confined-radii" } else { "rrect-paths-differ:draw-pixels" };
+                    ctx.expect(diff.is_empty(), cls, || format!("draw {} pixels {}", r1.rec.fmt_map(), r3.rec.fmt_map()));
+                }
                 let g = (out + 3) as i32;
                 let mut bad = None;
                 // mismatches of the known mechanism only: a point of the fill area outside the stroke area of a
@@ -778,6 +796,7 @@ impl Module for M {
                 let confined = radii_confined(&sa) || radii_confined(&fa);
                 let mut bad_confined = None;
                 let mut inside_viol = None;
+                let mut inside_viol_confined = None;
                 let mut outside_viol = None;
                 let mut painted = 0usize;
                 for y in (tl.y - g)..(tl.y + h as i32 + g) {
@@ -805,7 +824,13 @@ impl Module for M {
                         }
                         // an inside stroke never paints outside the shape, an outside stroke never inside it
                         if a == 0 && got.is_some() && !rr.contains(p) {
-                            inside_viol = Some(p);
+                            // (Inside alignment: stroke area = the shape) the known mechanism: a painted point of
+                            // fill_area \ stroke_area of a shape with rescaled radii
+                            if confined && fa.contains(p) && !sa.contains(p) {
+                                inside_viol_confined = Some(p);
+                            } else {
+                                inside_viol = Some(p);
+                            }
                         }
                         if a == 2 && got.is_some() && got == stroke && fill != stroke && rr.contains(p) {
                             outside_viol = Some(p);
@@ -818,6 +843,7 @@ impl Module for M {
                     format!("{} painted in the probe box, {} in the map", painted, r1.rec.map.len())
                 });
                 ctx.expect(inside_viol.is_none(), "C06:rrect-inside-stroke-paints-outside-shape", || format!("{:?}", inside_viol));
+                ctx.expect(inside_viol_confined.is_none(), "C06:rrect-inside-stroke-paints-outside-shape:confined-radii", || format!("{:?}", inside_viol_confined));
                 ctx.expect(outside_viol.is_none(), "C06:rrect-outside-stroke-paints-inside-shape", || format!("{:?}", outside_viol));
                 let mut pxs = String::new();
                 for (i, ((x, y), c)) in px.iter().enumerate() {
